@@ -194,12 +194,31 @@ Combine(name, sub) ==
     /\ IF ~(WF /\ FiniteT(pieces) /\ FiniteT(Ev.gpieces)) THEN TRUE
        ELSE LET f == [ends |-> ends, pieces |-> ValsT(pieces)]
                 g == [ends |-> Ev.gends, pieces |-> ValsT(Ev.gpieces)]
-                \* the merge compares breakpoints: run it on bit patterns with the IEEE order
+                \* the code's own merge (Merge.tla), on bit patterns with the IEEE order: the SHAPE it is expected to have
                 r == MergeBits(f, g, sub)
+                \* C13 as stated: at every x the result's piece combines the piece of f and the piece of g that direct
+                \* evaluation selects at x.  Selection only changes at breakpoints, so "every x" is: every breakpoint of f, g
+                \* and the result (a breakpoint belongs to the piece on its right), and a point just below each of them.
+                SelBelow(es, e) == LET c == { i \in 1..Len(es) : ~Lt(es[i], e) } IN
+                                   IF c = {} THEN Len(es) ELSE CHOOSE i \in c : \A k \in c : i <= k
+                pts == { ends[i] : i \in 1..Len(ends) } \cup { Ev.gends[i] : i \in 1..Len(Ev.gends) } \cup { Ev.ends[i] : i \in 1..Len(Ev.ends) }
+                Comb(i, j) == IF sub THEN B!SubP(f.pieces[i], g.pieces[j]) ELSE B!AddP(f.pieces[i], g.pieces[j])
+                PieceIs(k, i, j) ==
+                    LET q == Comb(i, j) IN
+                    (\A m \in 1..Len(q) : InRange(q[m]))
+                        => (Len(Ev.pieces[k]) = Len(q) /\ \A m \in 1..Len(q) : IsFinite(Ev.pieces[k][m]) /\ IsFlOf(Ev.pieces[k][m], q[m]))
+                Pointwise ==
+                    \A e \in pts :
+                        /\ PieceIs(P!SelectScan(Ev.ends, e), P!SelectScan(ends, e), P!SelectScan(Ev.gends, e))
+                        /\ PieceIs(SelBelow(Ev.ends, e), SelBelow(ends, e), SelBelow(Ev.gends, e))
+                Drawn == \A k \in 1..Len(Ev.ends) : (\E i \in 1..Len(ends) : NumEq(Ev.ends[k], ends[i]))
+                                                     \/ (\E j \in 1..Len(Ev.gends) : NumEq(Ev.ends[k], Ev.gends[j]))
             IN  /\ Tally(11, TRUE) /\ Tally(14, TRUE)
-                /\ JudgeIn("combine", P!WellFormed(Ev.ends), "result not well-formed")
-                /\ JudgeIn("combine", Ev.ends = r.ends, "merged breakpoints")
-                /\ JudgeIn("combine", InRangeT(r.pieces) => (FiniteT(Ev.pieces) /\ TableRnd(Ev.pieces, r.pieces)), "combined pieces")
+                /\ JudgeIn("combine", P!WellFormed(Ev.ends) /\ Len(Ev.pieces) = Len(Ev.ends), "result not well-formed")
+                /\ JudgeIn("combine", Len(Ev.ends) <= Len(ends) + Len(Ev.gends) - 1 /\ Drawn, "breakpoints not drawn from the operands, or too many pieces")
+                /\ JudgeIn("combine", ~(P!WellFormed(Ev.ends) /\ Len(Ev.pieces) = Len(Ev.ends)) \/ Pointwise, "combined pieces")
+                \* (no verdict: a correct merge may drop zero-width pieces or keep the other operand's zero on a tie)
+                /\ Drift(Ev.ends = r.ends, "merged breakpoints differ from the model's merge")
 
 TraceAdd == Combine("add", FALSE)
 TraceSub == Combine("sub", TRUE)
